@@ -103,6 +103,32 @@ CLAIMED.update({
                 technique='Coq proof (telescoping products by induction) + per-record correspondence with the returned report', design='DESIGN.md §5 C18'),
 })
 
+CLAIMED.update({
+    'C07': dict(text='View model (Model/View.v): every daily market-data accessor (price board, bar_dict / matcher bar, current_snapshot, the lazily read last price, '
+                     'history_bars with adjustment) returns the same on any two histories that agree up to the moment (common prefix + bars dated later; in the '
+                     'auction the day\'s bar may differ in everything but open / limits / volume), close-high-low are not observable before the open and in the '
+                     'auction, windows end yesterday there, adjustment uses only factor rows in effect; generic noninterference of a run whose every step reads '
+                     'the market through the view (any strategy feedback) by induction; partial: minute accessors and arbitrary attribute access are only explored '
+                     'by the two-world differential on the implementation; every recorded accessor call of real runs is replayed through the model on the visible '
+                     'part of the history inside coqc.',
+                technique='Coq proof (prefix-agreement lemmas by induction, noninterference of the generic loop) + per-call correspondence + two-world differential',
+                design='DESIGN.md §5 C07'),
+    'C13': dict(text='Process model (Model/Isolation.v): a new run rewrites the class-level switches, the environment singleton and clears the memoised results; for every '
+                     'well-formed op sequence the outcome is independent of the process state left by earlier runs up to id renaming (simulation by induction); '
+                     'lookups and get_future_contracts on a data set restricted to the referenced instruments equal those on the superset; the inventory of '
+                     'process-wide state is regenerated from the source (Gen/Globals.v) and classified by finite obligations; partial: interpreter state outside '
+                     'the inventory only through the in-process run sequences (fresh vs after other runs vs pruned data, traces compared exactly).',
+                technique='Coq proof (simulation by induction, filter lemmas) + regenerated inventory obligations + run-sequence differential with model replay',
+                design='DESIGN.md §5 C13'),
+    'C14': dict(text='Persist model (Model/Persist.v): persist / restore round trip of positions and accounts is the identity, hence every continuation equals the '
+                     'uninterrupted one; the resumable executor publishes, split at any end-of-day stop or at a normal exit, exactly the events of the uninterrupted '
+                     'run (pending settlement replayed once, a settled day never again) and coincides with the lifecycle model for a fresh run; the merged report '
+                     'series covers every day once; get_state / set_state key sets are regenerated (Gen/PersistKeys.v); partial: serialisation (jsonpickle / '
+                     'pickle), strategy context, universe and broker book only through the split runs of the real implementation at every stop day, three modes.',
+                technique='Coq proof (round trip, fold / split lemmas by induction) + regenerated key-set obligations + split-run differential with model replay',
+                design='DESIGN.md §5 C14'),
+})
+
 ALL = ['C%02d' % i for i in range(1, 21)]
 
 
